@@ -349,7 +349,7 @@ func init() {
 	register(&PropSpec{ID: "C15", Engine: "battle", Fn: caseHistory, Quick: 3000000, Thorough: 100000000, Level: "exploration",
 		Rule: "same histories as C13 with a recording listener and the bundled StateRecorder attached; per call the report stream is split into task windows and compared with the reference event stream (changed cells subset of reported cells subset of cells the instruction may touch; announced tasks; termination reports), the recorder is compared with the last-writer fold after every strictly-defined call; non-trivial and distinct as C13",
 		Real: real, Stubs: stubs, Assume: assume})
-	register(&PropSpec{ID: "C02", Engine: "battle", Fn: caseBattle, Quick: 800000, Thorough: 40000000, Level: "exploration",
+	register(&PropSpec{ID: "C02", Engine: "battle", Fn: caseBattle, Quick: 800000, Thorough: 30000000, Level: "exploration",
 		Rule: "a case = a well-formed battle (1..4 warriors of arbitrary code, arbitrary offsets, core 3..64 or 80/800/8000, process limit 1..4 or larger, cycle limit 1..40) run twice under two different driving schedules (Run(); RunCycle loop; steps+queries then Run()); every call is compared with the reference scheduler (core, queues, alive flags, counters, executed task sequence) and the two final states with each other; non-trivial = a cycle was executed; distinct = distinct (configuration, warriors, offsets, schedule)",
 		Real: real, Stubs: stubs, Assume: assume})
 	register(&PropSpec{ID: "C04", Engine: "battle", Fn: caseHostile, Quick: 600000, Thorough: 30000000, Level: "exploration",
